@@ -1,5 +1,7 @@
 (* C13 model driver: same line protocol as harness/src/bin/numops.rs, answers computed by the functions
    extracted from coq/C13 (Numtext).  Output per line:  <specification answer> TAB <code-level model answer or ->
+   The code-level column is the model of the REPAIRED algorithms (coq/C13/Deep_Code_C13.v); with NUMDRV_OLD_MODELS=1
+   it is the model of the algorithms as they were on the pinned tree (coq/C13/Code_C13.v).
    Answers: S:"..."  N:<16 hex>  N:nan  T:RangeError  T:SyntaxError  -  (specification leaves it open / not modelled) *)
 type str = string
 open Numtext
@@ -28,6 +30,7 @@ let hex_of_z (x : z) : str =
   let hi = int_of_z (Z.div x two32) and lo = int_of_z (Z.modulo x two32) in
   Printf.sprintf "%08x%08x" hi lo
 
+let old_models = (try Sys.getenv "NUMDRV_OLD_MODELS" = "1" with Not_found -> false)
 let nan_z = z_of_hex "7ff8000000000000"
 let show_num (x : z) : str = if x = nan_z then "N:nan" else "N:" ^ hex_of_z x
 
@@ -116,7 +119,12 @@ let split_last (s : str) : str * str =
 
 let words (s : str) : str list = List.filter (fun w -> w <> "") (String.split_on_char ' ' s)
 
+(* a line starting with '~' asks for the specification answer only (the code-level models of the digit
+   generating methods expand 768 / 1100 exact digits per case: the check samples them) *)
+let spec_only = ref false
+
 let answer (line : str) : str =
+  let line = if String.length line > 0 && line.[0] = '~' then (spec_only := true; String.sub line 1 (String.length line - 1)) else (spec_only := false; line) in
   let op, rest = split_first line in
   match op with
   | "tostr" -> show_units (to_string_spec (z_of_hex (String.trim rest))) ^ "\t-"
@@ -133,24 +141,25 @@ let answer (line : str) : str =
        | _ -> "?args")
   | "fixed" ->
       (match words rest with
-       | [b; d] -> show_res (to_fixed_spec (z_of_hex b) (match opt_arg d with Some d -> d | None -> Z0)) ^ "\t-"
+       | [b; d] -> let b = z_of_hex b and d = (match opt_arg d with Some d -> d | None -> Z0) in
+                   show_res (to_fixed_spec b d) ^ "\t" ^ (if old_models || !spec_only then "-" else show_res (to_fixed_fixed_model b d))
        | _ -> "?args")
   | "exp" ->
       (match words rest with
        | [b; d] -> let b = z_of_hex b and d = opt_arg d in
-                   show_res (to_exponential_spec b d) ^ "\t" ^ show_res (to_exponential_model b d)
+                   show_res (to_exponential_spec b d) ^ "\t" ^ (if !spec_only then "-" else show_res ((if old_models then to_exponential_model else to_exponential_fixed_model) b d))
        | _ -> "?args")
   | "prec" ->
       (match words rest with
        | [b; d] -> let b = z_of_hex b and d = opt_arg d in
-                   show_res (to_precision_spec b d) ^ "\t" ^ show_res (to_precision_model b d)
+                   show_res (to_precision_spec b d) ^ "\t" ^ (if !spec_only then "-" else show_res ((if old_models then to_precision_model else to_precision_fixed_model) b d))
        | _ -> "?args")
   | "num" -> let u = units_of_wire rest in
-             show_num (string_to_number_spec u) ^ "\t" ^ show_num (string_to_number_model u)
+             show_num (string_to_number_spec u) ^ "\t" ^ show_num ((if old_models then string_to_number_model else string_to_number_fixed_model) u)
   | "pf" -> show_num (parse_float_spec (units_of_wire rest)) ^ "\t-"
   | "pi" -> let s, r = split_last rest in
             let u = units_of_wire s and r = to_int32 r in
-            show_num (parse_int_spec u r) ^ "\t" ^ show_num (parse_int_model u r)
+            show_num (parse_int_spec u r) ^ "\t" ^ show_num ((if old_models then parse_int_model else parse_int_fixed_model) u r)
   | "lit" ->
       let u = units_of_wire rest in
       let sloppy = show_lit (numeric_literal_spec u false) and strict = show_lit (numeric_literal_spec u true) in
